@@ -42,6 +42,11 @@ pub fn parse(raw: &[u8]) -> Result<IndexMap<String, Vec<u8>>> {
     for entry in entry_metadata {
         cursor.set_position(entry.name_address as u64);
         let name = cursor.read_shift_jis_string()?;
+        // Check the recorded range against the buffer before allocating: the size field is
+        // untrusted and would otherwise size a buffer of up to 4 GiB.
+        if entry.file_address as u64 + entry.file_size_unpadded as u64 > raw.len() as u64 {
+            return Err(crate::ArchiveError::ArchiveTooSmall);
+        }
         cursor.set_position(entry.file_address as u64);
         let mut contents = vec![0; entry.file_size_unpadded as usize];
         cursor.read_exact(&mut contents)?;
